@@ -77,3 +77,93 @@ func runC11(cw *caseWriter, tier string, seed uint64) {
 		c11n = nil
 	}
 }
+
+// ---------------------------------------------------------------- snapshots taken in node sequences
+func evSnapshot(cut int, fails []bool) []uint64 { return append([]uint64{9}, tail(cut, fails)...) }
+
+func srvsEqual(a, b []srv) bool {
+	if len(a) != len(b) {
+		return false
+	}
+	for i := range a {
+		if a[i] != b[i] {
+			return false
+		}
+	}
+	return true
+}
+
+// c11monitor: what a snapshot taken by the server must record, and what compaction may remove
+func c11monitor(cw *caseWriter) func(tag string, in, obs []uint64) {
+	return func(tag string, in, obs []uint64) {
+		c := nsDecode(in)
+		parts := nsSplit(obs)
+		evs := nsEvents(in)
+		if len(parts) == 0 {
+			return
+		}
+		cur := parseState(stateOfBoot(parts[0]))
+		for i, e := range evs {
+			if i+1 >= len(parts) {
+				break
+			}
+			o := parts[i+1]
+			var next *nsState
+			switch {
+			case len(o) > 0 && o[0] == 10 && e.kind == 9:
+				next = parseState(o[skipTrace(o, 2):])
+				if cur != nil && next != nil && o[1] == 0 && len(next.snaps) > 0 {
+					sn, cfg := next.snaps[0], next.snapCfgs[0]
+					for _, p := range []string{"C11", "C10"} {
+						if sn[2] != cur.sc[sCommittedIdx] || !srvsEqual(cfg, cur.committed) {
+							cw.monitor(p, tag, "snapshot-records-a-configuration-that-is-not-the-committed-one", "event %d: snapshot at %d records configuration %v (index %d); the committed configuration was %v (index %d)", i, sn[0], cfg, sn[2], cur.committed, cur.sc[sCommittedIdx])
+						}
+						if sn[0] > cur.sc[sApplied] || sn[0] < sn[2] {
+							cw.monitor(p, tag, "snapshot-index-outside-applied-history", "event %d: snapshot index %d, applied %d, configuration index %d", i, sn[0], cur.sc[sApplied], sn[2])
+						}
+						if int(sn[3]) != len(cur.fsm) {
+							cw.monitor(p, tag, "snapshot-content-is-not-the-fsm-state", "event %d: snapshot holds %d items, the FSM held %d", i, sn[3], len(cur.fsm))
+						}
+					}
+					// compaction: only entries at or below the snapshot, at least TrailingLogs left when that many existed
+					kept := map[uint64]bool{}
+					for _, l := range next.log {
+						kept[l[0]] = true
+					}
+					removedAbove, before := false, 0
+					for _, l := range cur.log {
+						before++
+						if !kept[l[0]] && l[0] > sn[0] {
+							removedAbove = true
+						}
+					}
+					if removedAbove {
+						cw.monitor("C11", tag, "compaction-removed-entry-above-snapshot", "event %d: snapshot at %d", i, sn[0])
+					}
+					if uint64(before) >= c.trailing && uint64(len(next.log)) < c.trailing {
+						cw.monitor("C11", tag, "compaction-left-fewer-than-trailing-logs", "event %d: %d entries left, TrailingLogs %d, %d before", i, len(next.log), c.trailing, before)
+					}
+					// every index up to the last is covered by the snapshot or present, contiguous above it
+					last := next.sc[sLastLogIdx]
+					for idx := sn[0] + 1; idx <= last; idx++ {
+						if !kept[idx] {
+							cw.monitor("C11", tag, "hole-above-snapshot", "event %d: index %d is neither in the log nor covered by the snapshot at %d", i, idx, sn[0])
+							break
+						}
+					}
+				}
+			case len(o) > 0 && o[0] == 10:
+				nresp := map[uint64]int{1: 2, 2: 2, 3: 5, 4: 3, 5: 0, 6: 5, 8: 1}[e.kind]
+				if e.kind == 8 {
+					continue
+				}
+				next = parseState(o[skipTrace(o, 1+nresp):])
+			case len(o) > 0 && (o[0] == 20 || o[0] == 30):
+				next = parseState(stateOfBoot(o[1:]))
+			case len(o) > 0 && o[0] == 1:
+				next = parseState(stateOfBoot(o))
+			}
+			cur = next
+		}
+	}
+}
